@@ -217,7 +217,26 @@ PROPS["C12"] = dict(
 )
 
 
+def extra_C15(prog, impl, monline):
+    # the harness prints ... 0) when the body mirror of a FunctionDeclaration instruction is not the
+    # conversion of a declaration of that name
+    for m in re.finditer(r"\(FunctionDeclaration ", impl):
+        depth, j = 0, m.start()
+        while j < len(impl):
+            if impl[j] == "(":
+                depth += 1
+            elif impl[j] == ")":
+                depth -= 1
+                if depth == 0:
+                    break
+            j += 1
+        if impl[j - 2:j] == " 0":
+            return "C15: the body recorded in a FunctionDeclaration instruction is not the declared function's"
+    return None
+
+
 PROPS["C15"] = dict(
+    extra_check=extra_C15,
     title="Global symbol tables match the declarations; first declaration wins",
     projection="globals",
     monitor="C15",
